@@ -368,7 +368,7 @@ func TestMiniPrograms(t *testing.T) {
 				ctx.Excluded(kPending)
 			}
 			if ctx.Replay {
-				// the recorded finding deep-caught-throw-corrupts-frames is intermittent: a replay gets three more tries
+				// deep-caught-throw-corrupts-frames (fixed 4eaf1af) was intermittent: a replay gets three more tries
 				for i := 0; i < 3; i++ {
 					if err := oracle(c, ctx); err != nil {
 						return err
